@@ -32,6 +32,42 @@ func modByPrefix(byName map[string]*Mod, m *Mod, pfx string) *Mod {
 	return nil
 }
 
+// family: the module that owns m (m itself unless it is a submodule) followed by the submodules it includes.
+func family(byName map[string]*Mod, m *Mod) []*Mod {
+	owner := m
+	if m.BelongsTo != "" && byName[m.BelongsTo] != nil {
+		owner = byName[m.BelongsTo]
+	}
+	out := []*Mod{owner}
+	for _, inc := range owner.Includes {
+		if sm := byName[inc]; sm != nil {
+			out = append(out, sm)
+		}
+	}
+	return out
+}
+
+// ownerName: the name of the module whose namespace the definitions of m live in.
+func ownerName(m *Mod) string {
+	if m.BelongsTo != "" {
+		return m.BelongsTo
+	}
+	return m.Name
+}
+
+// findTypedef looks a module-level typedef up in module tm and the submodules it includes; the returned Mod is the
+// one that textually contains it (its imports resolve the prefixes inside the typedef).
+func findTypedef(byName map[string]*Mod, tm *Mod, name string) (*Mod, *Typedef) {
+	for _, x := range family(byName, tm) {
+		for _, td := range x.Typedefs {
+			if td.Name == name {
+				return x, td
+			}
+		}
+	}
+	return nil, nil
+}
+
 func spaceOf(byName map[string]*Mod, mods []*Mod, m *Mod, t *TypeSpec, leafMod *Mod, depth int) (*vt.Space, bool) {
 	if t == nil || depth > 20 {
 		return nil, false
@@ -63,16 +99,11 @@ func spaceOf(byName map[string]*Mod, mods []*Mod, m *Mod, t *TypeSpec, leafMod *
 		if tm == nil {
 			return nil, false
 		}
-		var td *Typedef
-		for _, x := range tm.Typedefs {
-			if x.Name == name {
-				td = x
-			}
-		}
+		dm, td := findTypedef(byName, tm, name)
 		if td == nil {
 			return nil, false
 		}
-		base, ok := spaceOf(byName, mods, tm, td.Type, leafMod, depth+1)
+		base, ok := spaceOf(byName, mods, dm, td.Type, leafMod, depth+1)
 		if !ok {
 			return nil, false
 		}
@@ -118,7 +149,7 @@ func derivedIdentities(byName map[string]*Mod, mods []*Mod, m *Mod, base string,
 			p, n := localName(id.Base)
 			pm := modByPrefix(byName, x, p)
 			if pm != nil {
-				derived[key{pm.Name, n}] = append(derived[key{pm.Name, n}], key{x.Name, id.Name})
+				derived[key{ownerName(pm), n}] = append(derived[key{ownerName(pm), n}], key{ownerName(x), id.Name})
 			}
 		}
 	}
@@ -131,7 +162,7 @@ func derivedIdentities(byName map[string]*Mod, mods []*Mod, m *Mod, base string,
 				continue
 			}
 			seen[d] = true
-			if leafMod != nil && d.mod == leafMod.Name {
+			if leafMod != nil && d.mod == ownerName(leafMod) {
 				out = append(out, d.name)
 			} else {
 				out = append(out, d.mod+":"+d.name)
@@ -139,7 +170,7 @@ func derivedIdentities(byName map[string]*Mod, mods []*Mod, m *Mod, base string,
 			walk(d)
 		}
 	}
-	walk(key{bm.Name, name})
+	walk(key{ownerName(bm), name})
 	return out
 }
 
@@ -215,19 +246,14 @@ func DefaultOfType(mods []*Mod, m *Mod, t *TypeSpec) *string {
 		if tm == nil {
 			return nil
 		}
-		var td *Typedef
-		for _, x := range tm.Typedefs {
-			if x.Name == name {
-				td = x
-			}
-		}
+		dm, td := findTypedef(byName, tm, name)
 		if td == nil {
 			return nil
 		}
 		if td.Default != nil {
 			return td.Default
 		}
-		m, t = tm, td.Type
+		m, t = dm, td.Type
 	}
 	return nil
 }
